@@ -92,10 +92,19 @@ def run_per_rule_converter(ctx, fn: str, fin_sub: bool = False, referenced: bool
     stored: list = []
     finalised_calls: list = []
 
+    trace: list = []
+
     def stage(name, value):
+        trace.append(name)
         if fail_at == name:
             raise error
         return value
+
+    class _Detection:
+        @property
+        def parsed_condition(self):
+            trace.append("read conditions")
+            return conds
 
     conds = [_types.SimpleNamespace(parsed="c0"), _types.SimpleNamespace(parsed="c1")]
     class _Rule(_types.SimpleNamespace):
@@ -104,7 +113,7 @@ def run_per_rule_converter(ctx, fn: str, fin_sub: bool = False, referenced: bool
         def __hash__(self): return 1
 
     rule = _Rule(_backreferences=[object()] if referenced else [], _output=output, source=None, generate=True, errors=[], rules=[], type=SigmaCorrelationType.EVENT_COUNT, condition=None, title="t",
-                                  detection=_types.SimpleNamespace(parsed_condition=conds),
+                                  detection=_Detection(),
                                   set_conversion_result=lambda q: stored.append(list(q)), set_conversion_states=lambda st: None,
                                   get_conversion_result=lambda: list(stored[-1]), get_conversion_states=lambda: [])
 
@@ -128,7 +137,7 @@ def run_per_rule_converter(ctx, fn: str, fin_sub: bool = False, referenced: bool
     me.finalize_query = finalize_query
     for cm in ("event_count", "value_count", "value_sum", "value_avg", "value_percentile", "value_median", "temporal", "temporal_ordered", "extended_temporal", "extended_temporal_ordered"):
         setattr(me, f"convert_correlation_{cm}_rule", corr)
-    out = _types.SimpleNamespace(ret=None, raised=None, stored=stored, finalised_calls=finalised_calls, rule=rule, me=me, error=error, errors=None)
+    out = _types.SimpleNamespace(ret=None, raised=None, stored=stored, finalised_calls=finalised_calls, rule=rule, me=me, error=error, errors=None, trace=trace)
     try:
         out.ret = call_method(prog, B, fn, me, env, rule, interp_kwargs=IK) if fn == "convert_rule" else call_method(prog, B, fn, me, env, rule, None, None, interp_kwargs=IK)
     except Raised as ex:
